@@ -106,6 +106,11 @@ theorem internIn_prefix {α : Type} [BEq α] (l : List α) (v : α) : l <+: (int
   obtain ⟨ext, h⟩ := internIn_ext l v
   rw [h]; exact List.prefix_append l ext
 
+theorem internIn_length_le_succ {α : Type} [BEq α] (l : List α) (v : α) :
+    (internIn l v).1.length ≤ l.length + 1 := by
+  unfold internIn
+  split <;> simp
+
 theorem prefix_get {α : Type} {l l' : List α} (h : l <+: l') {i : Nat} {x : α} (hx : l[i]? = some x) :
     l'[i]? = some x := by
   obtain ⟨t, rfl⟩ := h
@@ -183,6 +188,40 @@ theorem Interner.reg_id {x : Interner} (h : x.Inv) (r : Reg) (hc : (x.env.reg r)
     simp only [Env.reg, Env.internName, Interner.env, internIn_key] at hb
     simp only [Interner.reg, Interner.addNameNs, Interner.env, Env.reg, Env.internName, internIn_key]
     exact getIdMut_id_eq h.nm (l, n) hb
+
+/-- … in particular while the table is below `2^bits` before the call. -/
+theorem Interner.addPrefix_id {x : Interner} (h : x.Inv) (p : Str)
+    (hb : x.prefixLookup.byId.length < 2 ^ prefixIdBits) : (x.addPrefix p).2 = (x.env.internPrefix p).2 := by
+  show (getIdMut prefixIdBits x.prefixLookup p).2 = (internIn x.prefixLookup.byId p).2
+  rw [internIn_str]
+  apply getIdMut_id_eq h.pf
+  have := @internIn_length_le_succ Str instBEqOfDecidableEq x.prefixLookup.byId p
+  omega
+
+theorem Interner.addNamespace_id {x : Interner} (h : x.Inv) (u : Str)
+    (hb : x.namespaceLookup.byId.length < 2 ^ namespaceIdBits) :
+    (x.addNamespace u).2 = (x.env.internNamespace u).2 := by
+  show (getIdMut namespaceIdBits x.namespaceLookup u).2 = (internIn x.namespaceLookup.byId u).2
+  rw [internIn_str]
+  apply getIdMut_id_eq h.ns
+  have := @internIn_length_le_succ Str instBEqOfDecidableEq x.namespaceLookup.byId u
+  omega
+
+theorem Interner.addNameNs_id {x : Interner} (h : x.Inv) (l : Str) (n : Nat)
+    (hb : x.nameLookup.byId.length < 2 ^ nameIdBits) : (x.addNameNs l n).2 = (x.env.internName l n).2 := by
+  show (getIdMut nameIdBits x.nameLookup (l, n)).2 = (internIn x.nameLookup.byId (l, n)).2
+  rw [internIn_key]
+  apply getIdMut_id_eq h.nm
+  have := @internIn_length_le_succ NameKey instBEqOfDecidableEq x.nameLookup.byId (l, n)
+  omega
+
+/-- The read-only lookup finds what `get_id_mut` just returned. -/
+theorem IdMap.getId_getIdMut_self {α : Type} [DecidableEq α] {bits : Nat} {m : IdMap α} (h : IdMap.Inv bits m)
+    (v : α) : getId (getIdMut bits m v).1 v = some (getIdMut bits m v).2 := by
+  have hi := getIdMut_inv h v
+  obtain ⟨h1, h2⟩ := getIdMut_id h v
+  unfold getId
+  rw [hi.graph v, if_pos h2, h1]
 
 /-- The built-in id fields are never touched. -/
 theorem Interner.reg_consts (x : Interner) (r : Reg) :
